@@ -234,7 +234,9 @@ func streamsOf(src string) (comments string, tokens string, err error) {
 	var cs, ts []string
 	for _, t := range toks {
 		if t.Type == token.COMMENT || t.Type == token.DOCUMENT {
-			cs = append(cs, strings.TrimSpace(t.Text))
+			// white space inside a comment may differ (the statement: "only whitespace and comment
+			// placement may differ"): runs of blanks / tabs compare equal to one blank
+			cs = append(cs, strings.Join(strings.Fields(t.Text), " "))
 		} else {
 			ts = append(ts, t.Text)
 		}
